@@ -1093,7 +1093,11 @@ impl<'a> GeneratorState<'a> {
                 let v = self.compiler_state.get_variable(name);
                 match v.var_type {
                     VariableType::CharPtr => {
-                        self.asm(STA, &ExprType::Absolute(name.clone(), true, 0), pos, false)?;
+                        // Like load/store: the access itself is the purpose, never optimise it out
+                        self.protected = true;
+                        let ret = self.asm(STA, &ExprType::Absolute(name.clone(), true, 0), pos, false);
+                        self.protected = false;
+                        ret?;
                         Ok(())
                     }
                     _ => Err(self
